@@ -26,9 +26,9 @@ import (
 )
 
 type stepT struct {
-	C     int `json:"c"`
-	Sent  int `json:"sent"`
-	Scope int `json:"scope"`
+	C      int  `json:"c"`
+	Sent   int  `json:"sent"`
+	Scope  int  `json:"scope"`
 	ExpHit bool `json:"expHit"`
 }
 
